@@ -393,6 +393,29 @@ Definition lcp_valid2 (preset version hashalg ptype hmask smask : Z) : verd :=
   else if smask =? 0 then fail
   else pass.
 
+(** SINITACMcomplyTPMSpec (fit.go).  [sinitACM] calls [tools.ParseACM] TWICE on
+    the same reader and returns the SECOND result: the module parsed from the
+    bytes that FOLLOW the SINIT ACM inside the SINIT region.  [caps1]: TPM
+    capabilities word of the SINIT ACM itself (never looked at); [caps2]: those of
+    the module behind it, [None] when that second parse fails (zero padding, end
+    of region: the regular case); [tpm]: PreSet.TPM (1 = TPM 1.2, 2 = TPM 2.0);
+    [present]: the "TPM is present" test has passed.
+    [1 >> caps & x] parses as [(1 >> caps) & x]. *)
+Definition FAM_DTPM12 : Z := 1.    (* tools.TPMFamilyDTPM12   0x0001 *)
+Definition FAM_DTPM20 : Z := 16.   (* tools.TPMFamilyDTPM20   0x0010 *)
+Definition FAM_BOTH : Z := 17.     (* tools.TPMFamilyDTPMBoth 0x0011 *)
+Definition sinit_tpm_spec (caps1 : Z) (caps2 : option Z) (tpm : Z) (present : bool) : verd :=
+  match caps2 with
+  | None => fail
+  | Some c =>
+      let one_shr := if c =? 0 then 1 else 0 in
+      let r12 := Z.land one_shr (Z.lor FAM_DTPM12 FAM_BOTH) in
+      let r20 := Z.land one_shr (Z.lor FAM_DTPM20 FAM_BOTH) in
+      if (r12 =? 0) && (tpm =? 1) && present then pass
+      else if (r20 =? 0) && (tpm =? 2) && present then pass
+      else fail
+  end.
+
 (** * 4. Boot Guard / ME verdicts (pkg/provisioning/bootguard) — results are
       (bool, error): [V ok err false] *)
 
